@@ -146,6 +146,18 @@ pub fn corpus(out: &mut Out, prop: &str) {
         sc(0, true, Command::ZAdd { key: k("z"), pairs: vec![(1.0, s("5")), (2.0, s("3"))], nx: false, xx: false, gt: false, lt: false, ch: false }),
         sc(0, true, Command::Sort { key: k("z"), store: None }),
     ]);
+    // round-4 seed C01-expire-gt-equal-deadline: EXPIRE … GT whose new deadline EQUALS the current one
+    let expire_gt = |secs: i64| Command::Expire { key: k("k"), seconds: secs, nx: false, xx: false, gt: true, lt: false };
+    run_scripted(out, prop, "expire-gt-equal-deadline", vec![
+        sc(0, true, Command::setex(k("k"), 100, s("v"))),
+        sc(0, true, expire_gt(100)),           // same instant, same TTL: 0
+        sc(40_000, true, expire_gt(59)),       // 60 s left: smaller deadline: 0
+        sc(0, true, expire_gt(60)),            // equal again: 0
+        sc(0, true, Command::Pttl(k("k"))),
+        sc(0, true, expire_gt(61)),            // strictly greater: 1
+        sc(0, true, expire_gt(61)),            // repeated at the same instant: 0
+        sc(0, true, Command::Pttl(k("k"))),
+    ]);
     run_scripted(out, prop, "setrange-check-order", vec![
         sc(0, true, Command::RPush(k("l"), vec![s("a")])),
         sc(0, true, Command::SetRange(k("l"), 1 << 40, s("x"))),
@@ -157,8 +169,10 @@ pub fn run(a: &Args) {
     let mut rng = Rng::new(a.seed);
     corpus(&mut out, "C01");
     for _ in 0..a.n {
-        run_random_sequence(&mut out, &mut rng, "C01", &gen_cmd);
+        run_random_sequence(&mut out, &mut rng, "C01", &gen_cmd, 10);
     }
+    crate::boundary::boundary_pass(&mut out, &mut rng, "C01", (a.n / 1000).clamp(2, 20));
+    crate::boundary::coverage_table(&mut out);
     out.extra.insert("families_covered".into(), serde_json::json!(FAMILIES));
     out.extra.insert("not_in_command_enum".into(), serde_json::json!(NOT_IN_ENUM));
     out.finish("case = one sequence of 1..60 commands (strings, counters, keys, expiry, lists, sets, hashes, sorted sets over 5 colliding keys; clock moved between commands by 0 / 1 ms / random / exactly-the-deadline / one-ms-before / one-after, through set_time or update_time_readonly) run on a fresh real CommandExecutor; after every command the reply and the whole visible keyspace are compared with the Lean reference model; distinct by the op text of the whole sequence; non-trivial iff at least one command changed the visible keyspace and at least one reply was neither an error nor nil/0/empty");
